@@ -42,6 +42,12 @@ func (vc *VC) execInstr(ins ssa.Instruction) {
 		vc.vals[x] = vc.indexAddr(x)
 	case *ssa.Index:
 		vc.vals[x] = vc.index(x)
+	case *ssa.Lookup:
+		vc.vals[x] = vc.mapLookup(x)
+	case *ssa.MapUpdate:
+		vc.mapUpdate(x)
+	case *ssa.MakeMap:
+		vc.vals[x] = vc.makeMap(x)
 	case *ssa.FieldAddr:
 		p := vc.val(x.X)
 		vc.nilCheck(p, x.Pos(), R)
@@ -80,10 +86,10 @@ func (vc *VC) execInstr(ins ssa.Instruction) {
 		el := x.Type().Underlying().(*types.Slice).Elem()
 		vc.zeroObject(obj, el)
 		vc.vals[x] = sliceV(x.Type(), obj, "0", ln, cp)
-	case *ssa.MakeMap, *ssa.MakeChan:
-		r := vc.fresh(x.(ssa.Value).Type(), "mk")
+	case *ssa.MakeChan:
+		r := vc.fresh(x.Type(), "mk")
 		vc.fact("true", lt("0", r.S))
-		vc.vals[x.(ssa.Value)] = r
+		vc.vals[x] = r
 	case *ssa.MakeClosure:
 		r := vc.fresh(x.Type(), "closure")
 		vc.fact("true", lt("0", r.S))
@@ -893,17 +899,7 @@ func (vc *VC) typeAssert(x *ssa.TypeAssert) SVal {
 		return r
 	}
 	okT := and(not(eq(v.S, "0")), eq(sx(vc.typeofFn(), v.S), litI(int64(vc.eng.typeID(x.AssertedType)))))
-	i := 0
-	r := vc.build(x.AssertedType, "", func(path string, sort Sort, lt types.Type) string {
-		fn := fmt.Sprintf("unbox_%d_%d", vc.eng.typeID(x.AssertedType), i)
-		if !vc.declared[fn] {
-			vc.declared[fn] = true
-			vc.emit(fmt.Sprintf("(declare-fun %s (Int) %s)", fn, sort))
-		}
-		i++
-		return sx(fn, v.S)
-	})
-	vc.fact("true", vc.typeFacts(r))
+	r := vc.unboxVal(v, x.AssertedType)
 	if x.CommaOk {
 		return SVal{K: KTuple, T: x.Type(), F: []SVal{vc.iteVal(okT, r, vc.zero(x.AssertedType)), boolV(okT)}}
 	}
